@@ -129,7 +129,7 @@ def live_row(rng, b, pev, swing=0.0, tf=None, noise=0.05):
     }
 
 
-def gen_feed(rng, case, frac_reporting=None, threshold=100, special=True, n_unexpected=None):
+def gen_feed(rng, case, frac_reporting=None, threshold=100, special=True, n_unexpected=None, allow_unknown_state=True, nan_rows=False):
     """Adds feed rows (and possibly tweaks baseline rows: zero baseline) for a case.
 
     returns list of feed rows; annotates case['notes'] with the intended role of special units.
@@ -155,10 +155,21 @@ def gen_feed(rng, case, frac_reporting=None, threshold=100, special=True, n_unex
                 i = pool.pop()
                 roles[i] = kind
                 specials.append(kind)
+    if nan_rows:
+        # units that are in the feed with missing (NaN) results ("not reporting yet" as some feeds send it)
+        pool2 = [i for i in idx if roles[i] in ("rep", "partial", "none")]
+        for i in pool2[: rng.randint(1, 3)]:
+            roles[i] = "nan_result"
     for i, b in enumerate(base):
         role = roles[i]
         uid = b["geographic_unit_fips"]
-        if role == "rep":
+        if role == "nan_result":
+            r = live_row(rng, b, rng.choice([0, 40, 100]), swing)
+            for c in ("results_dem", "results_gop", "results_turnout"):
+                r[c] = None           # in the feed, but no results at all yet
+            feed.append(r)
+            notes[uid] = role
+        elif role == "rep":
             feed.append(live_row(rng, b, 100 if threshold <= 100 else threshold, swing))
         elif role == "partial":
             hi = max(1, int(threshold) - 1)
@@ -222,6 +233,8 @@ def gen_feed(rng, case, frac_reporting=None, threshold=100, special=True, n_unex
     used = {b["geographic_unit_fips"] for b in base}
     for k in range(n_unexpected):
         st = rng.choice(case["states"])
+        if rng.random() < 0.15 and allow_unknown_state:
+            st = "ZZ"             # a state the office is not configured for: still a unit of the feed, reported as unexpected
         c = rng.choice(known_counties) if rng.random() < 0.6 else f"9{rng.randint(10, 99)}"
         d = (rng.choice(known_d) if rng.random() < 0.6 else rng.choice(["7", "70"])) if district else None
         uid = unit_id(case["unit_type"], d, c, f"x{k}")
@@ -279,7 +292,7 @@ def gen_params(rng, case, pi_method=None, estimands=None):
             mp["robust"] = True
     # less common model parameters (each one switches on a code path the defaults never reach)
     if rng.random() < 0.25:
-        mp["turnout_factor_lower"], mp["turnout_factor_upper"] = rng.choice([(0.6, 1.8), (0.25, 3.0), (0.5, 1.5)])
+        mp["turnout_factor_lower"], mp["turnout_factor_upper"] = rng.choice([(0.6, 1.8), (0.25, 3.0), (0.5, 1.5), (0, 5), (0.0, 2.0)])
     if rng.random() < 0.15:
         mp["outlier_z_threshold"] = rng.choice([1.5, 3.0])
     if pi_method == "gaussian":
@@ -331,10 +344,10 @@ def gen_case(rng, pi_method=None, threshold=None, **kw):
     if params["pi_method"] == "bootstrap" and kw.get("avoid_boot_nan_key", True):
         # an unexpected unit with a missing key column makes the bootstrap aggregation raise (finding F15, decided by C11)
         aggs_ = params["aggregates"]
-        if "county_classification" in aggs_ or (case["office"] in ("H", "Y", "Z") and "district" not in aggs_):
+        if case["office"] in ("H", "Y", "Z") and "district" not in aggs_:
             n_unx = 0
     case["feed"] = gen_feed(rng, case, frac_reporting=kw.get("frac_reporting"), threshold=thr,
-                            special=kw.get("special", True), n_unexpected=n_unx)
+                            special=kw.get("special", True), n_unexpected=n_unx, nan_rows=kw.get("nan_rows", False))
     # blocklists
     mp = params["model_parameters"]
     if kw.get("blocklist", True) and rng.random() < 0.4:
@@ -345,7 +358,7 @@ def gen_case(rng, pi_method=None, threshold=None, **kw):
         zb = [u for u, role in case.get("notes", {}).items() if str(role).startswith("zero_baseline")]
         if zb and rng.random() < 0.6:
             mp["unit_blocklist"] = sorted(set(mp.get("unit_blocklist", [])) | {rng.choice(zb)})
-    if kw.get("blocklist", True) and len(case["states"]) > 2 and rng.random() < 0.2:
+    if kw.get("blocklist", True) and len(case["states"]) >= 2 and rng.random() < 0.3:
         mp["postal_code_blocklist"] = [case["states"][-1]]
     if "outlier" in kw and not kw["outlier"]:
         mp["fit_margin_outlier_model"] = False
